@@ -59,13 +59,20 @@ func LogicalRightShift8[L SimpleInt](left L, right uint64) L {
 
 type logicalShiftFunc[L SimpleInt] func(left L, right uint64) L
 
+// Returns the magnitude of a negative shift count.
+// Negating the most negative value of a signed type overflows
+// and would yield a negative shift amount.
+func negatedShiftCount[R SimpleInt](r R) uint64 {
+	return uint64(-(int64(r) + 1)) + 1
+}
+
 // Bitshift a strict int to the left.
 func StrictIntLogicalLeftBitshift[T StrictInt](left T, right Value, shiftFunc logicalShiftFunc[T]) (T, Value) {
 	if right.IsReference() {
 		switch r := right.AsReference().(type) {
 		case Int64:
 			if r < 0 {
-				return shiftFunc(left, uint64(-r)), Undefined
+				return shiftFunc(left, negatedShiftCount(r)), Undefined
 			}
 			return left << r, Undefined
 		case UInt64:
@@ -74,7 +81,7 @@ func StrictIntLogicalLeftBitshift[T StrictInt](left T, right Value, shiftFunc lo
 			if r.IsSmallInt() {
 				rSmall := r.ToSmallInt()
 				if rSmall < 0 {
-					return left >> -rSmall, Undefined
+					return left >> negatedShiftCount(rSmall), Undefined
 				}
 				return left << rSmall, Undefined
 			}
@@ -89,31 +96,31 @@ func StrictIntLogicalLeftBitshift[T StrictInt](left T, right Value, shiftFunc lo
 	case SMALL_INT_FLAG:
 		r := right.AsSmallInt()
 		if r < 0 {
-			return shiftFunc(left, uint64(-r)), Undefined
+			return shiftFunc(left, negatedShiftCount(r)), Undefined
 		}
 		return left << r, Undefined
 	case INT64_FLAG:
 		r := right.AsInlineInt64()
 		if r < 0 {
-			return shiftFunc(left, uint64(-r)), Undefined
+			return shiftFunc(left, negatedShiftCount(r)), Undefined
 		}
 		return left << r, Undefined
 	case INT32_FLAG:
 		r := right.AsInt32()
 		if r < 0 {
-			return shiftFunc(left, uint64(-r)), Undefined
+			return shiftFunc(left, negatedShiftCount(r)), Undefined
 		}
 		return left << r, Undefined
 	case INT16_FLAG:
 		r := right.AsInt16()
 		if r < 0 {
-			return shiftFunc(left, uint64(-r)), Undefined
+			return shiftFunc(left, negatedShiftCount(r)), Undefined
 		}
 		return left << r, Undefined
 	case INT8_FLAG:
 		r := right.AsInt8()
 		if r < 0 {
-			return shiftFunc(left, uint64(-r)), Undefined
+			return shiftFunc(left, negatedShiftCount(r)), Undefined
 		}
 		return left << r, Undefined
 	case UINT_FLAG:
@@ -142,7 +149,7 @@ func StrictIntLogicalRightBitshift[T StrictInt](left T, right Value, shiftFunc l
 		switch r := right.AsReference().(type) {
 		case Int64:
 			if r < 0 {
-				return left << -r, Undefined
+				return left << negatedShiftCount(r), Undefined
 			}
 			return shiftFunc(left, uint64(r)), Undefined
 		case UInt64:
@@ -151,7 +158,7 @@ func StrictIntLogicalRightBitshift[T StrictInt](left T, right Value, shiftFunc l
 			if r.IsSmallInt() {
 				rSmall := r.ToSmallInt()
 				if rSmall < 0 {
-					return left << -rSmall, Undefined
+					return left << negatedShiftCount(rSmall), Undefined
 				}
 				return shiftFunc(left, uint64(rSmall)), Undefined
 			}
@@ -166,31 +173,31 @@ func StrictIntLogicalRightBitshift[T StrictInt](left T, right Value, shiftFunc l
 	case SMALL_INT_FLAG:
 		r := right.AsSmallInt()
 		if r < 0 {
-			return left << -r, Undefined
+			return left << negatedShiftCount(r), Undefined
 		}
 		return shiftFunc(left, uint64(r)), Undefined
 	case INT64_FLAG:
 		r := right.AsInlineInt64()
 		if r < 0 {
-			return left << -r, Undefined
+			return left << negatedShiftCount(r), Undefined
 		}
 		return shiftFunc(left, uint64(r)), Undefined
 	case INT32_FLAG:
 		r := right.AsInt32()
 		if r < 0 {
-			return left << -r, Undefined
+			return left << negatedShiftCount(r), Undefined
 		}
 		return shiftFunc(left, uint64(r)), Undefined
 	case INT16_FLAG:
 		r := right.AsInt16()
 		if r < 0 {
-			return left << -r, Undefined
+			return left << negatedShiftCount(r), Undefined
 		}
 		return shiftFunc(left, uint64(r)), Undefined
 	case INT8_FLAG:
 		r := right.AsInt8()
 		if r < 0 {
-			return left << -r, Undefined
+			return left << negatedShiftCount(r), Undefined
 		}
 		return shiftFunc(left, uint64(r)), Undefined
 	case UINT_FLAG:
@@ -219,7 +226,7 @@ func StrictIntRightBitshift[T StrictInt](left T, right Value) (T, Value) {
 		switch r := right.AsReference().(type) {
 		case Int64:
 			if r < 0 {
-				return left << -r, Undefined
+				return left << negatedShiftCount(r), Undefined
 			}
 			return left >> r, Undefined
 		case UInt64:
@@ -228,11 +235,15 @@ func StrictIntRightBitshift[T StrictInt](left T, right Value) (T, Value) {
 			if r.IsSmallInt() {
 				rSmall := r.ToSmallInt()
 				if rSmall < 0 {
-					return left << -rSmall, Undefined
+					return left << negatedShiftCount(rSmall), Undefined
 				}
 				return left >> rSmall, Undefined
 			}
 
+			if r.ToGoBigInt().Sign() > 0 && left < 0 {
+				// arithmetic shift: every bit becomes a copy of the sign bit
+				return ^T(0), Undefined
+			}
 			return 0, Undefined
 		default:
 			return 0, Ref(NewBitshiftOperandError(right))
@@ -243,31 +254,31 @@ func StrictIntRightBitshift[T StrictInt](left T, right Value) (T, Value) {
 	case SMALL_INT_FLAG:
 		r := right.AsSmallInt()
 		if r < 0 {
-			return left << -r, Undefined
+			return left << negatedShiftCount(r), Undefined
 		}
 		return left >> r, Undefined
 	case INT64_FLAG:
 		r := right.AsInlineInt64()
 		if r < 0 {
-			return left << -r, Undefined
+			return left << negatedShiftCount(r), Undefined
 		}
 		return left >> r, Undefined
 	case INT32_FLAG:
 		r := right.AsInt32()
 		if r < 0 {
-			return left << -r, Undefined
+			return left << negatedShiftCount(r), Undefined
 		}
 		return left >> r, Undefined
 	case INT16_FLAG:
 		r := right.AsInt16()
 		if r < 0 {
-			return left << -r, Undefined
+			return left << negatedShiftCount(r), Undefined
 		}
 		return left >> r, Undefined
 	case INT8_FLAG:
 		r := right.AsInt8()
 		if r < 0 {
-			return left << -r, Undefined
+			return left << negatedShiftCount(r), Undefined
 		}
 		return left >> r, Undefined
 	case UINT_FLAG:
@@ -296,7 +307,7 @@ func StrictIntLeftBitshift[T StrictInt](left T, right Value) (T, Value) {
 		switch r := right.AsReference().(type) {
 		case Int64:
 			if r < 0 {
-				return left >> -r, Undefined
+				return left >> negatedShiftCount(r), Undefined
 			}
 			return left << r, Undefined
 		case UInt64:
@@ -305,11 +316,15 @@ func StrictIntLeftBitshift[T StrictInt](left T, right Value) (T, Value) {
 			if r.IsSmallInt() {
 				rSmall := r.ToSmallInt()
 				if rSmall < 0 {
-					return left >> -rSmall, Undefined
+					return left >> negatedShiftCount(rSmall), Undefined
 				}
 				return left << rSmall, Undefined
 			}
 
+			if r.ToGoBigInt().Sign() < 0 && left < 0 {
+				// arithmetic shift to the right: every bit becomes a copy of the sign bit
+				return ^T(0), Undefined
+			}
 			return 0, Undefined
 		default:
 			return 0, Ref(NewBitshiftOperandError(right))
@@ -320,31 +335,31 @@ func StrictIntLeftBitshift[T StrictInt](left T, right Value) (T, Value) {
 	case SMALL_INT_FLAG:
 		r := right.AsSmallInt()
 		if r < 0 {
-			return left >> -r, Undefined
+			return left >> negatedShiftCount(r), Undefined
 		}
 		return left << r, Undefined
 	case INT64_FLAG:
 		r := right.AsInlineInt64()
 		if r < 0 {
-			return left >> -r, Undefined
+			return left >> negatedShiftCount(r), Undefined
 		}
 		return left << r, Undefined
 	case INT32_FLAG:
 		r := right.AsInt32()
 		if r < 0 {
-			return left >> -r, Undefined
+			return left >> negatedShiftCount(r), Undefined
 		}
 		return left << r, Undefined
 	case INT16_FLAG:
 		r := right.AsInt16()
 		if r < 0 {
-			return left >> -r, Undefined
+			return left >> negatedShiftCount(r), Undefined
 		}
 		return left << r, Undefined
 	case INT8_FLAG:
 		r := right.AsInt8()
 		if r < 0 {
-			return left >> -r, Undefined
+			return left >> negatedShiftCount(r), Undefined
 		}
 		return left << r, Undefined
 	case UINT_FLAG:
